@@ -17,6 +17,7 @@ configuration, optionally the resumed file is cut and resumed a second time (`ch
 import gzip
 import json
 import os
+import re
 import shutil
 import tempfile
 import zlib
@@ -312,7 +313,7 @@ def detect_flags():
 class C02(Property):
     id = "C02"
     prop_modules = ["CobaVerif.Props.C02"]
-    quick_n = 280
+    quick_n = 250
     thorough_n = 5000
     search_n = 160
     case_timeout = 120
@@ -342,6 +343,55 @@ class C02(Property):
         "resume_cur_partial": "the pinned code is only correct for cuts on a record boundary after the experiment line; the full theorem (resume_correct) is proved for the code with fixes/C02-*.diff",
         "resume_correct": "hypothesis NonEmptyI (every I record carries rows) is necessary: empty_rows_counterexample / finding C02-F6 (recorded, not repaired)",
     }
+
+    # ---------------------------------------------------------------- translator part
+    def pre_build(self):
+        """the three name tests `is this a gzip file?` (DiskSink.__enter__, DiskSource.read, Experiment._drop_torn_tail) are
+        re-extracted from the source into lean/CobaVerif/Generated/C02GzPredicates.lean; Props proves that they agree"""
+        repo = os.environ.get("COBA_REPO", "/repo")
+
+        def src(rel):
+            with open(os.path.join(repo, rel), encoding="utf-8") as f:
+                return f.read()
+
+        def cond(text, pattern):
+            m = re.search(pattern, text, re.S)
+            return m.group(1).strip() if m else None
+
+        def pred(c):
+            if c is None:
+                return None
+            m = re.fullmatch(r"""(["'])(.+?)\1\s+in\s+[\w.]+""", c)
+            if m:
+                return "GzPred.contains " + str(list(m.group(2).encode("utf-8")))
+            m = re.fullmatch(r"""[\w.]+\.endswith\(\s*(["'])(.+?)\1\s*\)""", c)
+            if m:
+                return "GzPred.endsWith " + str(list(m.group(2).encode("utf-8")))
+            return None
+        try:
+            sink = cond(src("coba/pipes/sinks.py"), r"class DiskSink\b.*?def __enter__.*?\n\s*if\s+([^\n]+?):\s*\n\s*self\._file\s*=\s*gzip\.open")
+            source = cond(src("coba/pipes/sources.py"), r"class DiskSource\b.*?opener\s*=\s*gzip\.open\s+if\s+(.+?)\s+else\s+open")
+            repair = cond(src("coba/experiments/core.py"), r"def _drop_torn_tail\b.*?\n\s*if\s+([^\n]+?):\s*\n(?:\s*#[^\n]*\n)*\s*good\s*,\s*member\s*=")
+        except OSError:
+            sink = source = repair = None
+        preds = [pred(sink), pred(source), pred(repair)]
+        path = os.path.join(lean.LEAN_DIR, "CobaVerif", "Generated", "C02GzPredicates.lean")
+        head = ("-- GENERATED by harness/props/c02.py from coba/pipes/sinks.py, coba/pipes/sources.py, coba/experiments/core.py on every run; do not edit.\n"
+                "import CobaVerif.Model.C02\nnamespace Coba.Generated.C02Gz\nopen Coba.C02\n")
+        if all(preds):
+            body = head + "def sinkPred : GzPred := %s\ndef sourcePred : GzPred := %s\ndef repairPred : GzPred := %s\ndef extracted : Bool := true\nend Coba.Generated.C02Gz\n" % tuple(preds)
+            note = "gzip name tests extracted: sink `%s`, source `%s`, torn-tail repair `%s`" % (sink, source, repair)
+        else:
+            dflt = "GzPred.contains [46, 103, 122]"
+            body = (head + "-- extraction failed (code reshaped): sink=%r source=%r repair=%r; the side obligation gz_preds_equal is then about these defaults only\n" % (sink, source, repair)
+                    + "def sinkPred : GzPred := %s\ndef sourcePred : GzPred := %s\ndef repairPred : GzPred := %s\ndef extracted : Bool := false\nend Coba.Generated.C02Gz\n" % (dflt, dflt, dflt))
+            note = "gzip name tests could NOT be extracted (sink=%r source=%r repair=%r): obligation gz_preds_equal skipped; behaviour still checked through the generated file names" % (sink, source, repair)
+        old = open(path, encoding="utf-8").read() if os.path.exists(path) else None
+        if old != body:
+            os.makedirs(os.path.dirname(path), exist_ok=True)
+            with open(path, "w", encoding="utf-8") as f:
+                f.write(body)
+        return [note]
 
     # ---------------------------------------------------------------- generation
     def gen_exp(self, rng, small=False):
@@ -412,17 +462,17 @@ class C02(Property):
 
     def generate(self, rng, tier):
         rng = rng.fork("c02")       # the per-case streams of core.prng overlap (shifted by one output) for neighbouring case numbers
-        if rng.chance(0.07):
+        if rng.chance(0.055 if tier == "quick" else 0.07):
             return self.gen_long(rng, tier)
         c = self.gen_exp(rng)
         self.gen_name(rng, c)
-        mp = rng.chance(0.035 if tier == "quick" else 0.05)
+        mp = rng.chance(0.025 if tier == "quick" else 0.05)
         c["cfg0"] = CFG1
         c["cfg"] = self.gen_cfg(rng, mp)
         nrec = 2 + len(c["envs"]) + len(c["lrns"]) + len(c["vals"]) + len(triples_of(c))
         cuts = []
         if mp:
-            for _ in range(2):
+            for _ in range(1 if (tier == "quick" and rng.chance(0.6)) else 2):
                 cuts.append(rng.choice([["b", rng.below(nrec + 1), rng.choice([-1, 0, 0, 1])], ["p", rng.below(1001)]]))
         else:
             for i in range(nrec + 1):
